@@ -1634,6 +1634,17 @@ class C07(Prop):
                 yield {"mode": "seq", "kind": case["kind"], "start": case["start"], "ops": seq}
             return
         ops, start, kind = case["ops"], case["start"], case["kind"]
+        if case["mode"] == "obj":
+            # any sub-history is a case (the model decides what each call does); object indices must stay in range,
+            # a candidate that does not evaluate is skipped by the shrinker
+            for n in range(1, len(ops)):
+                yield {**case, "ops": ops[:n]}
+            for i in range(len(ops)):
+                if not (ops[i]["op"] == "add" and ops[i]["cal"] is not None and "new" in ops[i]["cal"]):
+                    yield {**case, "ops": ops[:i] + ops[i + 1:]}
+            if kind.endswith("_npz") and not any(o["op"].startswith("edit") or o["op"].endswith("offsets") for o in ops):
+                yield {**case, "kind": kind[:-4]}
+            return
         if len(ops) > 1:  # a prefix (the first failing step is usually early)
             for n in range(1, len(ops)):
                 yield {**case, "ops": ops[:n]}
